@@ -69,7 +69,7 @@ let () =
        | "LOAD" -> let v = rd_val () in (match loads v with Some m -> st := m; w "ok" | None -> w "ERR")
        | "RELOAD" -> (match loads (to_json !st) with Some m -> st := m; w "ok" | None -> st := VErr; w "ERR")
        | "CANON" -> let v = rd_val () in (match loads v with Some m -> wr_val (to_json m) | None -> w "E")
-       | "WF" -> w (if wfb !st then "1" else "0")
+       | "WF" -> w (if wfb !st && msorted !st then "1" else "0")
        | "WALK" -> wr_val (VList (walk_items !st))
        | "LOWER" -> wr_str (lower (rd_str ()))
        | "STRIP" -> wr_str (strip (rd_str ()))
